@@ -170,6 +170,7 @@ type Contract struct {
 	MaintainsScope map[string][]string          // optional property scope of a maintains clause
 	Reveal         []string                     // opaque spec functions whose definition is used here
 	GroundUnfold   []string
+	Assumes        []*Clause // assumed (unverified) postconditions
 	Conceal        []string                     // spec functions whose definition is NOT used in this contract\'s queries
 	Callbacks      map[string]*LoopSpec         // invariants over captured variables across calls that take a closure ("callback callee: invariant E")
 	InlineLoops    map[string]map[int]*LoopSpec // invariants supplied by this contract for loops of inlined callees ("loop callee.N: ...")
@@ -973,7 +974,7 @@ var clauseKeywords = map[string]bool{
 	"maypanic": true, "assigns": true, "loop": true, "inline": true, "trusted": true,
 	"pure": true, "type": true, "spec": true, "unfold": true, "axiom": true, "extern": true,
 	"iface": true, "lemma": true, "let": true, "assert": true, "assume": true, "level": true,
-	"package": true, "nobody": true, "call": true, "defines": true, "global": true, "maintains": true, "purefn": true, "purecalls": true, "import": true, "callback": true, "groundunfold": true, "opaque": true, "reveal": true, "uses": true, "conceal": true,
+	"package": true, "nobody": true, "call": true, "defines": true, "global": true, "maintains": true, "purefn": true, "purecalls": true, "import": true, "assumes": true, "callback": true, "groundunfold": true, "opaque": true, "reveal": true, "uses": true, "conceal": true,
 }
 
 type rawClause struct {
@@ -1134,6 +1135,15 @@ func ParseSpecText(text, path string, goFile bool) (*SpecFile, error) {
 				return nil, fmt.Errorf("%s:%d: ensures outside contract", path, rc.line)
 			}
 			if err := addClause(&cur.Ensures, "ensures", rc); err != nil {
+				return nil, err
+			}
+		case "assumes":
+			// a postcondition that callers may rely on but that is NOT verified on the body: an
+			// explicit, named assumption (listed in the evidence of every run that uses it)
+			if cur == nil {
+				return nil, fmt.Errorf("%s:%d: assumes outside contract", path, rc.line)
+			}
+			if err := addClause(&cur.Assumes, "assumes", rc); err != nil {
 				return nil, err
 			}
 		case "maypanic":
